@@ -70,6 +70,7 @@ var (
 	rawOptionsType = reflect.TypeOf(RawOptions(nil))
 	optionsPtrType = reflect.TypeOf((*optionsPtr)(nil)).Elem()
 	inputsType     = reflect.TypeOf(Inputs(nil))
+	callableType   = reflect.TypeOf((*Callable)(nil)).Elem()
 )
 
 // NewGoFn wraps a Go function into an Elvish function using reflection.
@@ -214,6 +215,12 @@ func (b *goFn) Call(f *Frame, args []any, opts map[string]any) error {
 			break // Handled after the loop
 		} else {
 			panic("impossible")
+		}
+		if arg == nil && typ == callableType {
+			// ScanToGo accepts $nil as a nil Callable, which the
+			// implementation would then call.
+			return WrongArgType{i, errs.BadValue{
+				What: "argument", Valid: "callable", Actual: "$nil"}}
 		}
 		ptr := reflect.New(typ)
 		err := vals.ScanToGo(arg, ptr.Interface())
